@@ -1,1 +1,499 @@
-//! stub created by the lead so that the workspace always loads
+//! vupd: glue shared by the dynamic-update checks C12 / C14 / C13.
+//!
+//! One seam: TSIG-signed UPDATE (and AXFR / SOA query) wire messages -> the real
+//! `Catalog::handle_request` (via `vsim::serve`) -> a real `SqliteZoneHandler<SimProvider>`.
+//!
+//! * RRs, zones and messages are described in the reference model's own vocabulary
+//!   (`vref::update::Rr`: lower-cased labels, numeric type/class, canonical RDATA bytes) and are
+//!   turned into hickory `Record`s through hickory's wire decoder, exactly like a request would;
+//! * `Env` owns catalog + handler (+ optional in-memory SQLite journal);
+//! * `Snap` is the observable zone state (`records()` + empty RRset keys) in that vocabulary.
+
+use std::collections::BTreeMap;
+use std::str::FromStr;
+use std::sync::Arc;
+
+use hickory_net::xfer::Protocol;
+use hickory_proto::op::update_message::UpdateMessage;
+use hickory_proto::op::{Message, MessageType, OpCode, Query};
+use hickory_proto::rr::rdata::tsig::TsigAlgorithm;
+use hickory_proto::rr::{LowerName, Name, Record, RecordSet, RecordType, RrKey, TSigner};
+use hickory_proto::serialize::binary::{BinDecodable, BinDecoder, BinEncodable, BinEncoder};
+use hickory_server::store::in_memory::InMemoryZoneHandler;
+use hickory_server::store::sqlite::{Journal, SqliteZoneHandler};
+use hickory_server::zone_handler::{AxfrPolicy, Catalog, ZoneType};
+use serde_json::{json, Value};
+use vref::update as ru;
+use vref::wire::{self, Labels};
+use vsim::SimProvider;
+
+pub use vref::update::Rr;
+
+pub const ORIGIN: &str = "z.";
+/// Virtual wall clock used by the update checks (vsim's default).
+pub const NOW: u64 = 1_700_000_000;
+pub const KEY1: &[u8] = b"0123456789abcdef0123456789abcdef";
+pub const KEY2: &[u8] = b"fedcba9876543210fedcba9876543210";
+
+pub type Handler = SqliteZoneHandler<SimProvider>;
+pub type RecordMap = BTreeMap<RrKey, Arc<RecordSet>>;
+
+pub fn hname(s: &str) -> Name {
+    Name::from_str(s).unwrap()
+}
+
+pub fn signer(name: &str, key: &[u8], alg: TsigAlgorithm, fudge: u16) -> TSigner {
+    TSigner::new(key.to_vec(), alg, hname(name), fudge).unwrap()
+}
+
+pub fn signer1() -> TSigner {
+    signer("k1.", KEY1, TsigAlgorithm::HmacSha256, 300)
+}
+
+// ------------------------------------------------------------------------------------------
+// RR constructors in the reference vocabulary
+
+pub fn a(name: &str, ttl: u32, last: u8) -> Rr {
+    Rr::new(name, ru::T_A, ru::CLASS_IN, ttl, vec![10, 0, 0, last])
+}
+pub fn txt(name: &str, ttl: u32, s: &str) -> Rr {
+    let mut rd = vec![s.len() as u8];
+    rd.extend_from_slice(s.as_bytes());
+    Rr::new(name, ru::T_TXT, ru::CLASS_IN, ttl, rd)
+}
+pub fn cname(name: &str, ttl: u32, target: &str) -> Rr {
+    Rr::new(name, ru::T_CNAME, ru::CLASS_IN, ttl, ru::name_wire(target))
+}
+pub fn ns(name: &str, ttl: u32, target: &str) -> Rr {
+    Rr::new(name, ru::T_NS, ru::CLASS_IN, ttl, ru::name_wire(target))
+}
+/// SOA with the fixed names `n1.o.` / `h.o.` and refresh/retry/expire = 1.
+pub fn soa(name: &str, ttl: u32, serial: u32, minimum: u32) -> Rr {
+    Rr::new(name, ru::T_SOA, ru::CLASS_IN, ttl, ru::soa_rdata("n1.o.", "h.o.", serial, 1, 1, 1, minimum))
+}
+/// An RR with empty RDATA (the metavalue forms of RFC 2136 3.2.4 / 3.4.2.6).
+pub fn empty(name: &str, rtype: u16, class: u16, ttl: u32) -> Rr {
+    Rr::new(name, rtype, class, ttl, vec![])
+}
+pub fn with_class(mut rr: Rr, class: u16) -> Rr {
+    rr.class = class;
+    rr
+}
+pub fn with_ttl(mut rr: Rr, ttl: u32) -> Rr {
+    rr.ttl = ttl;
+    rr
+}
+
+pub fn name_str(l: &Labels) -> String {
+    wire::name_to_string(l)
+}
+
+pub fn type_name(t: u16) -> String {
+    match t {
+        1 => "A".into(),
+        2 => "NS".into(),
+        5 => "CNAME".into(),
+        6 => "SOA".into(),
+        16 => "TXT".into(),
+        251 => "IXFR".into(),
+        252 => "AXFR".into(),
+        253 => "MAILB".into(),
+        254 => "MAILA".into(),
+        255 => "ANY".into(),
+        t => format!("TYPE{t}"),
+    }
+}
+
+pub fn class_name(c: u16) -> String {
+    match c {
+        1 => "IN".into(),
+        3 => "CH".into(),
+        254 => "NONE".into(),
+        255 => "ANY".into(),
+        c => format!("CLASS{c}"),
+    }
+}
+
+/// Human-readable one-line form of an RR (for witnesses).
+pub fn rr_text(r: &Rr) -> String {
+    let rd = if r.rdata.is_empty() {
+        "-".to_string()
+    } else {
+        match r.rtype {
+            1 if r.rdata.len() == 4 => format!("{}.{}.{}.{}", r.rdata[0], r.rdata[1], r.rdata[2], r.rdata[3]),
+            2 | 5 => wire::read_name(&r.rdata, 0).map(|(n, _)| name_str(&n)).unwrap_or_else(|_| vcore::hex::enc(&r.rdata)),
+            6 => format!(
+                "serial={} min={}",
+                ru::soa_serial(&r.rdata).map(|s| s.to_string()).unwrap_or("?".into()),
+                r.rdata.len().checked_sub(4).map(|p| u32::from_be_bytes([r.rdata[p], r.rdata[p + 1], r.rdata[p + 2], r.rdata[p + 3]])).unwrap_or(0)
+            ),
+            16 => format!("\"{}\"", String::from_utf8_lossy(&r.rdata[1..])),
+            _ => vcore::hex::enc(&r.rdata),
+        }
+    };
+    format!("{} {} {} {} {}", name_str(&r.name), r.ttl, class_name(r.class), type_name(r.rtype), rd)
+}
+
+pub fn rr_json(r: &Rr) -> Value {
+    json!({"n": name_str(&r.name), "t": r.rtype, "c": r.class, "ttl": r.ttl, "rd": vcore::hex::enc(&r.rdata), "text": rr_text(r)})
+}
+
+pub fn rr_from_json(v: &Value) -> Rr {
+    Rr {
+        name: ru::name_from_str(v["n"].as_str().unwrap_or(".")),
+        rtype: v["t"].as_u64().unwrap_or(0) as u16,
+        class: v["c"].as_u64().unwrap_or(0) as u16,
+        ttl: v["ttl"].as_u64().unwrap_or(0) as u32,
+        rdata: vcore::hex::dec(v["rd"].as_str().unwrap_or("")).unwrap_or_default(),
+    }
+}
+
+// ------------------------------------------------------------------------------------------
+// conversions reference vocabulary <-> hickory
+
+/// Wire form of one RR (uncompressed).
+pub fn rr_wire(rr: &Rr) -> Vec<u8> {
+    let mut v = vec![];
+    wire::emit_name(&rr.name, &mut v);
+    v.extend_from_slice(&rr.rtype.to_be_bytes());
+    v.extend_from_slice(&rr.class.to_be_bytes());
+    v.extend_from_slice(&rr.ttl.to_be_bytes());
+    v.extend_from_slice(&(rr.rdata.len() as u16).to_be_bytes());
+    v.extend_from_slice(&rr.rdata);
+    v
+}
+
+/// The hickory `Record` hickory's own decoder makes of the RR's wire form.
+pub fn to_record(rr: &Rr) -> Record {
+    let w = rr_wire(rr);
+    let mut d = BinDecoder::new(&w);
+    Record::read(&mut d).unwrap_or_else(|e| panic!("universe RR does not decode: {} ({e})", rr_text(rr)))
+}
+
+/// The reference form of a hickory `Record` (through hickory's encoder and the independent walker).
+pub fn from_record(rec: &Record) -> Rr {
+    let mut buf = Vec::with_capacity(64);
+    {
+        let mut enc = BinEncoder::new(&mut buf);
+        rec.emit(&mut enc).expect("record encodes");
+    }
+    let raw = wire::read_record(&buf, 0).expect("walker reads hickory's record encoding");
+    Rr {
+        name: wire::lower(&raw.name),
+        rtype: raw.rtype,
+        class: raw.class,
+        ttl: raw.ttl,
+        rdata: ru::canonical_rdata(&buf, raw.rtype, raw.rdata_start, raw.rdata_end).expect("canonical rdata"),
+    }
+}
+
+fn labels_to_name(l: &Labels) -> Name {
+    let mut n = Name::from_labels(l.iter().map(|x| &x[..])).unwrap();
+    n.set_fqdn(true);
+    n
+}
+
+// ------------------------------------------------------------------------------------------
+// observable zone state
+
+#[derive(Clone, Debug, PartialEq, Eq, Hash, Default)]
+pub struct Snap {
+    /// all RRs (RRSIGs excluded), sorted
+    pub rrs: Vec<Rr>,
+    /// RRset keys present in the store that hold no RR, sorted
+    pub empty_keys: Vec<(Labels, u16)>,
+}
+
+impl Snap {
+    pub fn from_map(map: &RecordMap) -> Snap {
+        let mut rrs = vec![];
+        let mut empty_keys = vec![];
+        for (k, set) in map.iter() {
+            if set.is_empty() {
+                let n = from_record(&Record::update0(Name::from(&k.name), 0, k.record_type).into_record_of_rdata());
+                empty_keys.push((n.name, n.rtype));
+            }
+            for r in set.records_without_rrsigs() {
+                rrs.push(from_record(r));
+            }
+        }
+        rrs.sort();
+        empty_keys.sort();
+        Snap { rrs, empty_keys }
+    }
+    pub fn zone(&self) -> ru::Zone {
+        ru::Zone { origin: ru::name_from_str(ORIGIN), class: ru::CLASS_IN, rrs: self.rrs.clone() }
+    }
+    /// Serial of the apex SOA (None if the zone has no apex SOA).
+    pub fn serial(&self) -> Option<u32> {
+        self.zone().serial()
+    }
+    /// Content with every SOA serial masked (the serial has its own oracle clause).
+    pub fn content(&self) -> std::collections::BTreeSet<Rr> {
+        self.zone().content()
+    }
+    /// Canonical state key: content + empty keys + every SOA serial relative to `initial_serial`.
+    pub fn key(&self, initial_serial: u32) -> u64 {
+        let mut s = String::new();
+        for r in &self.rrs {
+            let mut r = r.clone();
+            if r.rtype == ru::T_SOA {
+                if let Some(ser) = ru::soa_serial(&r.rdata) {
+                    s.push_str(&format!("d{};", ser.wrapping_sub(initial_serial)));
+                    r.rdata = ru::soa_without_serial(&r.rdata);
+                }
+            }
+            s.push_str(&format!("{}/{}/{}/{}/{};", name_str(&r.name), r.rtype, r.class, r.ttl, vcore::hex::enc(&r.rdata)));
+        }
+        for (n, t) in &self.empty_keys {
+            s.push_str(&format!("E{}/{};", name_str(n), t));
+        }
+        vcore::fnv_str(&s)
+    }
+    pub fn to_json(&self) -> Value {
+        json!({
+            "rrs": self.rrs.iter().map(rr_json).collect::<Vec<_>>(),
+            "empty_keys": self.empty_keys.iter().map(|(n, t)| json!({"n": name_str(n), "t": t})).collect::<Vec<_>>(),
+        })
+    }
+    pub fn from_json(v: &Value) -> Snap {
+        let mut s = Snap {
+            rrs: v["rrs"].as_array().map(|a| a.iter().map(rr_from_json).collect()).unwrap_or_default(),
+            empty_keys: v["empty_keys"]
+                .as_array()
+                .map(|a| a.iter().map(|e| (ru::name_from_str(e["n"].as_str().unwrap_or(".")), e["t"].as_u64().unwrap_or(0) as u16)).collect())
+                .unwrap_or_default(),
+        };
+        s.rrs.sort();
+        s.empty_keys.sort();
+        s
+    }
+    pub fn text(&self) -> Vec<String> {
+        let mut v: Vec<String> = self.rrs.iter().map(rr_text).collect();
+        for (n, t) in &self.empty_keys {
+            v.push(format!("<empty RRset key {} {}>", name_str(n), type_name(*t)));
+        }
+        v
+    }
+    /// The store content that corresponds to this snapshot (used to put a handler into a given
+    /// state for witness minimisation; verdicts never depend on it).
+    pub fn to_map(&self) -> RecordMap {
+        let serial = self.serial().unwrap_or(0);
+        let mut map: BTreeMap<RrKey, RecordSet> = BTreeMap::new();
+        for rr in &self.rrs {
+            let rec = to_record(rr);
+            let key = RrKey::new(LowerName::from(&rec.name), rec.record_type());
+            map.entry(key)
+                .or_insert_with(|| RecordSet::new(rec.name.clone(), rec.record_type(), serial))
+                .insert(rec, serial);
+        }
+        for (n, t) in &self.empty_keys {
+            let name = labels_to_name(n);
+            let key = RrKey::new(LowerName::from(&name), RecordType::from(*t));
+            map.entry(key).or_insert_with(|| RecordSet::new(name, RecordType::from(*t), serial));
+        }
+        map.into_iter().map(|(k, v)| (k, Arc::new(v))).collect()
+    }
+}
+
+// ------------------------------------------------------------------------------------------
+// messages
+
+#[derive(Clone, Debug, PartialEq, Eq, Hash, Default)]
+pub struct Msg {
+    pub prereqs: Vec<Rr>,
+    pub updates: Vec<Rr>,
+}
+
+impl Msg {
+    pub fn to_json(&self) -> Value {
+        json!({"prereqs": self.prereqs.iter().map(rr_json).collect::<Vec<_>>(), "updates": self.updates.iter().map(rr_json).collect::<Vec<_>>()})
+    }
+    pub fn from_json(v: &Value) -> Msg {
+        Msg {
+            prereqs: v["prereqs"].as_array().map(|a| a.iter().map(rr_from_json).collect()).unwrap_or_default(),
+            updates: v["updates"].as_array().map(|a| a.iter().map(rr_from_json).collect()).unwrap_or_default(),
+        }
+    }
+    pub fn text(&self) -> String {
+        format!(
+            "prereq[{}] update[{}]",
+            self.prereqs.iter().map(rr_text).collect::<Vec<_>>().join("; "),
+            self.updates.iter().map(rr_text).collect::<Vec<_>>().join("; ")
+        )
+    }
+}
+
+/// The unsigned hickory `Message` of an UPDATE for zone `z.`.
+pub fn update_message(id: u16, msg: &Msg) -> Message {
+    let mut m = Message::new(id, MessageType::Query, OpCode::Update);
+    m.add_zone(Query::new(hname(ORIGIN), RecordType::SOA));
+    for p in &msg.prereqs {
+        m.add_pre_requisite(to_record(p));
+    }
+    for u in &msg.updates {
+        m.add_update(to_record(u));
+    }
+    m
+}
+
+/// Wire bytes of the UPDATE signed by the real client-side signer (`Message::finalize`).
+pub fn signed_update(id: u16, msg: &Msg, signer: &TSigner, time: u64) -> Vec<u8> {
+    let mut m = update_message(id, msg);
+    m.finalize(signer, time).expect("client-side signing");
+    m.to_vec().expect("encode request")
+}
+
+pub fn query_message(id: u16, name: &str, rtype: RecordType) -> Message {
+    let mut m = Message::new(id, MessageType::Query, OpCode::Query);
+    m.add_query(Query::new(hname(name), rtype));
+    m
+}
+
+pub fn query_bytes(id: u16, name: &str, rtype: RecordType) -> Vec<u8> {
+    query_message(id, name, rtype).to_vec().unwrap()
+}
+
+/// A reply as the checks look at it: through the independent walker only.
+#[derive(Clone, Debug)]
+pub struct Reply {
+    pub raw: Vec<u8>,
+    pub rcode: u8,
+    pub answers: Vec<Rr>,
+    pub has_tsig: bool,
+}
+
+pub fn parse_reply(raw: &[u8]) -> Option<Reply> {
+    let w = wire::walk(raw).ok()?;
+    let mut answers = vec![];
+    for r in &w.answers {
+        answers.push(Rr {
+            name: wire::lower(&r.name),
+            rtype: r.rtype,
+            class: r.class,
+            ttl: r.ttl,
+            rdata: ru::canonical_rdata(raw, r.rtype, r.rdata_start, r.rdata_end).ok()?,
+        });
+    }
+    Some(Reply { raw: raw.to_vec(), rcode: w.header.rcode_low(), answers, has_tsig: w.additionals.last().map(|r| r.rtype == 250).unwrap_or(false) })
+}
+
+// ------------------------------------------------------------------------------------------
+// environment
+
+pub struct EnvOpts {
+    pub signers: Vec<TSigner>,
+    pub axfr: AxfrPolicy,
+    pub allow_update: bool,
+    pub journal: bool,
+}
+
+impl Default for EnvOpts {
+    fn default() -> Self {
+        EnvOpts { signers: vec![signer1()], axfr: AxfrPolicy::AllowAll, allow_update: true, journal: false }
+    }
+}
+
+pub struct Env {
+    pub catalog: Catalog,
+    pub h: Arc<Handler>,
+}
+
+pub fn new_journal() -> Journal {
+    let mut j = Journal::new(rusqlite::Connection::open_in_memory().expect("sqlite in memory")).expect("journal");
+    j.schema_up().expect("schema");
+    j
+}
+
+/// The in-memory zone the real loader path (`upsert_mut`) makes of `zone`.
+pub fn in_memory_zone(zone: &[Rr]) -> InMemoryZoneHandler<SimProvider> {
+    let serial = zone.iter().find(|r| r.rtype == ru::T_SOA).and_then(|r| ru::soa_serial(&r.rdata)).unwrap_or(0);
+    let mut z = InMemoryZoneHandler::<SimProvider>::empty(hname(ORIGIN), ZoneType::Primary, AxfrPolicy::AllowAll, None);
+    for rr in zone {
+        z.upsert_mut(to_record(rr), serial);
+    }
+    z
+}
+
+pub fn empty_zone() -> InMemoryZoneHandler<SimProvider> {
+    InMemoryZoneHandler::<SimProvider>::empty(hname(ORIGIN), ZoneType::Primary, AxfrPolicy::AllowAll, None)
+}
+
+impl Env {
+    /// A handler for `zone` (loaded through `upsert_mut`); with `opts.journal` an in-memory
+    /// journal is attached and the zone persisted into it (what `try_from_config` does).
+    pub async fn new(zone: &[Rr], opts: EnvOpts) -> Env {
+        let mut h = Handler::new(in_memory_zone(zone), opts.axfr, opts.allow_update, false);
+        h.set_tsig_signers(opts.signers.clone());
+        if opts.journal {
+            h.set_journal(new_journal()).await;
+            h.persist_to_journal().await.expect("persist_to_journal");
+        }
+        Env::from_handler(h)
+    }
+
+    pub fn from_handler(h: Handler) -> Env {
+        let h = Arc::new(h);
+        let mut catalog = Catalog::new();
+        catalog.upsert(LowerName::from(&hname(ORIGIN)), vec![h.clone()]);
+        Env { catalog, h }
+    }
+
+    pub async fn snapshot(&self) -> Snap {
+        Snap::from_map(&*self.h.records().await)
+    }
+
+    pub async fn save(&self) -> RecordMap {
+        self.h.records().await.clone()
+    }
+
+    pub async fn restore(&self, map: &RecordMap) {
+        *self.h.records_mut().await = map.clone();
+    }
+
+    /// Raw request bytes -> real Catalog -> raw reply messages (None: the bytes are no request).
+    pub async fn send(&self, bytes: &[u8]) -> Option<Vec<Vec<u8>>> {
+        vsim::serve(&self.catalog, bytes, Protocol::Tcp).await
+    }
+
+    /// Send and expect exactly one parseable reply.
+    pub async fn exchange(&self, bytes: &[u8]) -> Result<Reply, String> {
+        match self.send(bytes).await {
+            None => Err("request bytes rejected by Request::from_bytes".into()),
+            Some(v) if v.len() != 1 => Err(format!("{} reply messages", v.len())),
+            Some(v) => parse_reply(&v[0]).ok_or_else(|| "reply not walkable".to_string()),
+        }
+    }
+
+    /// Journal rows (client_id, soa_serial, timestamp, record bytes) in rowid order.
+    pub async fn journal_rows(&self) -> Vec<JournalRow> {
+        let g = self.h.journal().await;
+        let Some(j) = g.as_ref() else { return vec![] };
+        read_rows(j)
+    }
+}
+
+pub type JournalRow = (i64, i64, String, Vec<u8>);
+
+pub fn read_rows(j: &Journal) -> Vec<JournalRow> {
+    let conn = j.conn();
+    let mut st = conn.prepare("SELECT client_id, soa_serial, timestamp, record FROM records ORDER BY _rowid_").expect("select");
+    let it = st.query_map([], |r| Ok((r.get(0)?, r.get(1)?, r.get(2)?, r.get(3)?))).expect("rows");
+    it.map(|x| x.expect("row")).collect()
+}
+
+/// A fresh journal holding exactly `rows` (a "disk image" after a stop).
+pub fn journal_with_rows(rows: &[JournalRow]) -> Journal {
+    let j = new_journal();
+    {
+        let c = j.conn();
+        for r in rows {
+            c.execute(
+                "INSERT INTO records (client_id, soa_serial, timestamp, record) VALUES (?1,?2,?3,?4)",
+                rusqlite::params![r.0, r.1, r.2, r.3],
+            )
+            .expect("insert row");
+        }
+    }
+    j
+}
